@@ -1,5 +1,6 @@
 import MgpuProofs.Props.C02
 import MgpuProofs.C02TxnLemmas
+import MgpuProofs.C14VmuProofs
 /-! # C02 — the transaction path of the vector memory unit (coalescer → pipeline → port)
 
 `VectorMemoryUnit` (`amd/timing/cu/vectormemoryunit.go`) pushes the coalescer's transactions through
@@ -13,94 +14,26 @@ reorder buffer (C15) answers in the order the requests reached it, `OutstandingV
 decremented by the answer to the LAST transaction of an instruction (`C02.outstanding_counter_sound`
 needs in-order answers), and the memory applies stores in arrival order.
 
-* one lane (builder default, R9 Nano): the unit is a FIFO — `vmem_order_preserved_width1`, hence
-  `counter_sound_with_fifo_path`, `store_order_preserved_width1`;
-* more than one lane (the shipped MI300A platform uses 8): a full post-pipeline buffer stalls the
-  lanes, which are then served by lane number: a younger transaction in lane 0 overtakes an older one
-  in lane 1 — `vmem_order_full_refuted`, `counter_sound_any_width_refuted`,
-  `store_order_full_refuted`, all with ONE scenario (`witnessTicks`) that was replayed on the real
-  compute unit (oracles `C02.vmem-transaction-order`, `C02.vmem-counter-early`,
-  `C02.vmem-store-order` of the harness: wrong final memory / a stale register read).
+* the REPAIRED unit (fix b81645f1: `transactionsInOrder`, `sendRequest` sends the oldest only, a younger head
+  of the post-pipeline buffer is set aside, nothing is accepted while something is set aside) is a FIFO for
+  EVERY number of lanes: `vmem_order_preserved`, hence `counter_sound_with_fifo_path`,
+  `store_order_preserved` without any hypothesis on width or buffer. The model `C02.Txn.tick` is the cycle
+  function of the C14 model of the same unit (`C14.Vmu.cycle`) under the C02 scenario encoding, and the
+  theorems are consequences of the C14 invariant `vmu_GInv`;
+* the unit BEFORE the repair (`C02.Txn.Old`, the model this file was about when the defect was found): a FIFO
+  with one lane (`Old.vmem_order_preserved_width1`) or while no push into the post-pipeline buffer is refused
+  (`Old.vmem_order_preserved_unless_buffer_full`); with more lanes a full buffer stalls the lanes, which are
+  then served by lane number — `Old.vmem_order_before_fix_refuted`, `Old.counter_sound_before_fix_refuted`,
+  `Old.store_order_before_fix_refuted`, all with ONE scenario (`witnessTicks`) that was replayed on the real
+  compute unit before the repair (former findings C02-vmem-*: wrong final memory / a stale register read).
+  The same scenario on the repaired unit: `witness_scenario_repaired`.
 -/
 namespace C02.Txn
 open C02
 
-/-! ## one lane: FIFO -/
+/-! ## the outstanding-access counter behind the path (independent of the unit) -/
 
-/-- **vmem_order_preserved_width1.** Pipeline width 1 (`WithVecMemTransPipelineWidth(1)`, the builder
-    default and the R9 Nano configuration): for every number of stages, every post-pipeline buffer
-    capacity, every arrival pattern of transactions (with any coalescing penalties) and every
-    back-pressure pattern of the port, the transactions leave the vector memory unit in the order in
-    which the coalescer issued them: the departure order reads 0, 1, 2, …. -/
-theorem vmem_order_preserved_width1 (c : Cfg) (hw : c.w = 1) (ts : List Tk) :
-    departed c ts = List.range (departed c ts).length := by
-  unfold departed
-  simpa using run_fifo_width1 c hw ts
 
-/-- non-vacuity: one lane, two stages, the port closed for 14 ticks and then opened one slot per tick:
-    12 transactions, the post-pipeline buffer fills up (8), all leave in order -/
-example : departed (mkCfg 1 2 8) ([⟨2, List.replicate 12 0⟩] ++ List.replicate 14 ⟨0, []⟩ ++ List.replicate 14 ⟨1, []⟩) =
-    List.range 12 := by decide +kernel
-
-/-! ## more than one lane: the real witness -/
-
-/-- `w=2 s=1 b=8` -/
-def witnessCfg : Cfg := mkCfg 2 1 8
-
-def quiet (ps : List Nat) : List Tk := ps.map (⟨·, []⟩)
-
-/-- The scenario the REAL compute unit ran (`harness child c02txn witness`, first scenario; case line
-    `c02 txn w=2 s=1 b=8 n=192 ev=64*10,64:64x0,64*3,62,60,58,56,54:64x0,52,50,48,46,44,42,40,38:64x0,36,34,…,2,0*35,1*128`):
-    three FLAT instructions of 64 transactions each; nobody takes requests from `ToVectorMem` until its
-    64-entry outgoing buffer and the 8-entry post-pipeline buffer are full, then one request per tick. -/
-def witnessTicks : List Tk :=
-  quiet (List.replicate 10 64) ++ [⟨64, List.replicate 64 0⟩] ++ quiet [64, 64, 64, 62, 60, 58, 56] ++
-  [⟨54, List.replicate 64 0⟩] ++ quiet [52, 50, 48, 46, 44, 42, 40] ++ [⟨38, List.replicate 64 0⟩] ++
-  quiet [36, 34, 32, 30, 28, 26, 24, 22, 20, 18, 16, 14, 12, 10, 8, 6, 4, 2] ++
-  quiet (List.replicate 35 0) ++ quiet (List.replicate 128 1)
-
-/-- what the model (and the real unit: `ord=0,…,72,74,…,191,73`) answers: transaction 73 waits in lane 1
-    while 118 younger transactions pass through lane 0 -/
-theorem witness_departure :
-    departed witnessCfg witnessTicks = List.range 73 ++ List.range' 74 118 ++ [73] := by decide +kernel
-
-/-- the FIFO statement for every width -/
-def vmem_order_preserved_any_width : Prop :=
-  ∀ (c : Cfg) (ts : List Tk), departed c ts = List.range (departed c ts).length
-
-/-- **vmem_order_full_refuted.** With two lanes the vector memory unit does not keep the issue order
-    (`witnessTicks`, replayed on the real compute unit: oracle `C02.vmem-transaction-order`). -/
-theorem vmem_order_full_refuted : ¬ vmem_order_preserved_any_width := by
-  intro h
-  have := h witnessCfg witnessTicks
-  rw [witness_departure] at this
-  revert this
-  decide +kernel
-
-/-! ## when exactly more than one lane reorders -/
-
-/-- **vmem_order_preserved_unless_buffer_full.** For EVERY pipeline width, stage count and buffer
-    capacity: if in no tick of the run a push into the post-pipeline buffer is refused (`noStall`: when
-    the pipeline ticks, the buffer has room for every transaction standing in a last stage), the
-    transactions leave the unit in issue order. So a younger transaction can overtake an older one only
-    in a run in which the post-pipeline buffer was full while a lane wanted to push — which needs
-    back-pressure from `ToVectorMem` (the harness checks the same on the real unit:
-    `txn:reorder-needs-full-buffer`). -/
-theorem vmem_order_preserved_unless_buffer_full (c : Cfg) (ts : List Tk) (h : noStall c (init c) ts = true) :
-    departed c ts = List.range (departed c ts).length := by
-  unfold departed
-  simpa using run_fifo_noStall c ts h
-
-/-- non-vacuity: the MI300A configuration (8 lanes, 4 stages, buffer 64), 64 stores + 64 partly coalesced loads (penalty 2), 74 have left so far, the port
-    takes everything: no push is refused; the witness run does have a refused push -/
-example : noStall (mkCfg 8 4 64) (init (mkCfg 8 4 64))
-    ([⟨64, List.replicate 64 0⟩, ⟨64, []⟩, ⟨64, List.replicate 64 2⟩] ++ List.replicate 40 ⟨64, []⟩) = true ∧
-    departed (mkCfg 8 4 64) ([⟨64, List.replicate 64 0⟩, ⟨64, []⟩, ⟨64, List.replicate 64 2⟩] ++ List.replicate 40 ⟨64, []⟩) =
-      List.range 74 := by decide +kernel
-
-example : noStall witnessCfg (init witnessCfg) witnessTicks = false := by decide +kernel
-
-/-! ## the outstanding-access counter behind the path -/
 
 /-- the transaction ids of the responses, in order -/
 def txRetIds : List COp → List Nat
@@ -170,13 +103,196 @@ theorem inOrder_of_fifo_responses : ∀ (ops : List COp) (s : CSt) (r : Nat),
 example : inOrder [.issue 2, .ret 0, .issue 1, .ret 1, .ret 2] {} :=
   inOrder_of_fifo_responses _ {} 0 (by rfl) (Nat.le_refl _) (by decide) (by decide)
 
-/-- **counter_sound_with_fifo_path.** Composition with `C02.outstanding_counter_sound`. Let the
+
+/-! ## stores to one address -/
+
+
+/-- the memory after the stores `order` (issue indices) were applied in that order; `st i` = (address,
+    value) of store `i`; `none` = never written -/
+def memOf (st : Nat → Nat × Nat) (order : List Nat) : Nat → Option Nat :=
+  order.foldl (fun m i a => if a = (st i).1 then some (st i).2 else m a) (fun _ => none)
+
+
+/-! ## the repaired unit: FIFO for every width -/
+
+/-- the C14 invariant of the repaired unit holds in every state the C02 scenario encoding reaches -/
+theorem run_inv (c : Cfg) (ts : List Tk) : C14.Vmu.vmu_GInv (vcfg c) (run c ts) := by
+  unfold run
+  suffices h : ∀ (ts : List Tk) (s : St), C14.Vmu.vmu_GInv (vcfg c) s → C14.Vmu.vmu_GInv (vcfg c) (ts.foldl (tick c) s) from
+    h ts _ (C14.Vmu.vmu_init_inv (vcfg c))
+  intro ts
+  induction ts with
+  | nil => intro s h; exact h
+  | cons t ts ih =>
+    intro s h
+    simp only [List.foldl_cons]
+    apply ih
+    unfold tick
+    have h1 : C14.Vmu.vmu_GInv (vcfg c) (freeSlots t.p s) := by
+      obtain ⟨a, b, d, e⟩ := h
+      refine ⟨a, b, d, ?_⟩
+      show (s.out.drop (s.out.length - (portCap - t.p))).length ≤ (vcfg c).cap
+      simp only [List.length_drop]
+      omega
+    have h2 := C14.Vmu.vmu_cycle_inv (vcfg c) _ h1
+    generalize C14.Vmu.cycle (vcfg c) (freeSlots t.p s) = s2 at h2
+    unfold arrive
+    generalize t.arr = arr
+    induction arr generalizing s2 with
+    | nil => exact h2
+    | cons p ps ih2 =>
+      simp only [List.foldl_cons]
+      exact ih2 _ (C14.Vmu.vmu_step_inv (vcfg c) s2 (.issue 1 p) h2)
+
+/-- **vmem_order_preserved.** The repaired vector memory unit, EVERY pipeline width, stage count and
+    post-pipeline buffer capacity, every arrival pattern of transactions (with any coalescing penalties)
+    and every back-pressure pattern of the port: the transactions leave the unit in the order in which the
+    coalescer issued them — the departure order reads 0, 1, 2, …. (Before the repair: one lane only,
+    `Old.vmem_order_preserved_width1`; refuted for two lanes, `Old.vmem_order_before_fix_refuted`.) -/
+theorem vmem_order_preserved (c : Cfg) (ts : List Tk) :
+    departed c ts = List.range (departed c ts).length := by
+  have h := (run_inv c ts).1
+  unfold C14.Vmu.ledger at h
+  rw [List.append_assoc] at h
+  exact C14.Vmu.vmu_prefix_range _ _ _ h
+
+/-- `w=2 s=1 b=8` -/
+def witnessCfg : Cfg := mkCfg 2 1 8
+
+def quiet (ps : List Nat) : List Tk := ps.map (⟨·, []⟩)
+
+/-- The scenario the REAL compute unit ran BEFORE the repair (`harness child c02txn witness`, first scenario; case line
+    `c02 txn w=2 s=1 b=8 n=192 ev=64*10,64:64x0,64*3,62,60,58,56,54:64x0,52,50,48,46,44,42,40,38:64x0,36,34,…,2,0*35,1*128`):
+    three FLAT instructions of 64 transactions each; nobody takes requests from `ToVectorMem` until its
+    64-entry outgoing buffer and the 8-entry post-pipeline buffer are full, then one request per tick. -/
+def witnessTicks : List Tk :=
+  quiet (List.replicate 10 64) ++ [⟨64, List.replicate 64 0⟩] ++ quiet [64, 64, 64, 62, 60, 58, 56] ++
+  [⟨54, List.replicate 64 0⟩] ++ quiet [52, 50, 48, 46, 44, 42, 40] ++ [⟨38, List.replicate 64 0⟩] ++
+  quiet [36, 34, 32, 30, 28, 26, 24, 22, 20, 18, 16, 14, 12, 10, 8, 6, 4, 2] ++
+  quiet (List.replicate 35 0) ++ quiet (List.replicate 128 1)
+
+
+/-- the largest number of transactions set aside at the end of a tick of the run -/
+def maxAside (c : Cfg) (ts : List Tk) : Nat :=
+  (ts.foldl (fun (acc : St × Nat) t => let s := tick c acc.1 t; (s, max acc.2 s.aside.length)) (init c, 0)).2
+
+/-- **witness_scenario_repaired.** The back-pressure scenario that made the unit before the repair send
+    `0 … 72, 74 … 191, 73` (`Old.witness_departure`; two lanes, three FLAT instructions of 64 transactions,
+    the port closed until its 64 slots and the 8-entry post-pipeline buffer are full, then one request per
+    tick), on the repaired unit: the transactions leave in order (187 within the scenario's ticks — while
+    something is set aside the pipeline accepts nothing —, all 192 after eight more ticks), and the
+    set-aside path is really taken (up to 8 transactions wait outside the post-pipeline buffer). -/
+theorem witness_scenario_repaired :
+    departed witnessCfg witnessTicks = List.range 187 ∧
+    departed witnessCfg (witnessTicks ++ quiet (List.replicate 8 1)) = List.range 192 ∧
+    maxAside witnessCfg witnessTicks = 8 := by decide +kernel
+
+/-- non-vacuity for the MI300A shape (8 lanes, 4 stages, buffer 64): 64 stores + 64 partly coalesced loads -/
+example : departed (mkCfg 8 4 64) ([⟨64, List.replicate 64 0⟩, ⟨64, []⟩, ⟨64, List.replicate 64 2⟩] ++ List.replicate 40 ⟨64, []⟩) =
+    List.range 74 := by decide +kernel
+
+/-- **counter_sound_with_fifo_path.** Composition with `C02.outstanding_counter_sound`, for EVERY pipeline
+    width and buffer size (repaired unit). Let the memory side answer in arrival order (the reorder buffer,
+    property C15: the responses so far are the first `k` departures of the unit, for any run of it), and let
+    no response precede the issue of its transaction. Then the in-order hypothesis of
+    `outstanding_counter_sound` holds, so whenever `OutstandingVectorMemAccess` reads 0 no transaction of any
+    issued instruction is in flight: `s_waitcnt vmcnt(0)` cannot release early. -/
+theorem counter_sound_with_fifo_path (c : Cfg) (ts : List Tk) (ops : List COp) (k : Nat)
+    (hret : txRetIds ops = (departed c ts).take k) (hc : txCausal 0 0 ops = true) :
+    (crun ops {}).counter = 0 → (crun ops {}).inflight = [] := by
+  apply outstanding_counter_sound
+  apply inOrder_of_fifo_responses ops {} 0 (by rfl) (Nat.le_refl _) hc
+  rw [hret, vmem_order_preserved c ts, List.take_range, ← List.range_eq_range']
+  simp
+
+/-- non-vacuity: the two-lane witness scenario; three instructions of 64 transactions, 150 responses so far -/
+example : ∃ (ops : List COp),
+    txRetIds ops = (departed witnessCfg witnessTicks).take 150 ∧
+    txCausal 0 0 ops = true ∧ (crun ops {}).counter = 1 :=
+  ⟨[.issue 64, .issue 64, .issue 64] ++ (List.range 150).map .ret, by decide +kernel, by decide +kernel, by decide +kernel⟩
+
+/-- **store_order_preserved.** Every width (repaired unit): whatever the stores write and wherever, the
+    memory (which applies requests in arrival order) ends up as if the departed stores had been applied in
+    program order — two stores of a wavefront to one address reach the memory in program order, as the
+    emulator applies them. -/
+theorem store_order_preserved (c : Cfg) (ts : List Tk) (st : Nat → Nat × Nat) :
+    memOf st (departed c ts) = memOf st (List.range (departed c ts).length) := by
+  rw [← vmem_order_preserved c ts]
+
+/-- line 9 of the witness scenario now ends with the data of the THIRD store (transaction 137) -/
+example : memOf (fun i => (i % 64, i)) (departed witnessCfg witnessTicks) 9 = some 137 := by decide +kernel
+
+/-! ## the unit before the repair -/
+namespace Old
+
+/-! ## one lane: FIFO -/
+
+/-- **vmem_order_preserved_width1.** Pipeline width 1 (`WithVecMemTransPipelineWidth(1)`, the builder
+    default and the R9 Nano configuration): for every number of stages, every post-pipeline buffer
+    capacity, every arrival pattern of transactions (with any coalescing penalties) and every
+    back-pressure pattern of the port, the transactions leave the vector memory unit in the order in
+    which the coalescer issued them: the departure order reads 0, 1, 2, …. -/
+theorem vmem_order_preserved_width1 (c : Cfg) (hw : c.w = 1) (ts : List Tk) :
+    departed c ts = List.range (departed c ts).length := by
+  unfold departed
+  simpa using run_fifo_width1 c hw ts
+
+/-- non-vacuity: one lane, two stages, the port closed for 14 ticks and then opened one slot per tick:
+    12 transactions, the post-pipeline buffer fills up (8), all leave in order -/
+example : departed (mkCfg 1 2 8) ([⟨2, List.replicate 12 0⟩] ++ List.replicate 14 ⟨0, []⟩ ++ List.replicate 14 ⟨1, []⟩) =
+    List.range 12 := by decide +kernel
+
+/-! ## more than one lane: the real witness -/
+
+
+/-- what the model (and the real unit: `ord=0,…,72,74,…,191,73`) answers: transaction 73 waits in lane 1
+    while 118 younger transactions pass through lane 0 -/
+theorem witness_departure :
+    departed witnessCfg witnessTicks = List.range 73 ++ List.range' 74 118 ++ [73] := by decide +kernel
+
+/-- the FIFO statement for every width -/
+def vmem_order_before_fix_full : Prop :=
+  ∀ (c : Cfg) (ts : List Tk), departed c ts = List.range (departed c ts).length
+
+/-- **vmem_order_before_fix_refuted.** With two lanes the vector memory unit does not keep the issue order
+    (`witnessTicks`, replayed on the real compute unit: oracle `C02.vmem-transaction-order`). -/
+theorem vmem_order_before_fix_refuted : ¬ vmem_order_before_fix_full := by
+  intro h
+  have := h witnessCfg witnessTicks
+  rw [witness_departure] at this
+  revert this
+  decide +kernel
+
+/-! ## when exactly more than one lane reorders -/
+
+/-- **vmem_order_preserved_unless_buffer_full.** For EVERY pipeline width, stage count and buffer
+    capacity: if in no tick of the run a push into the post-pipeline buffer is refused (`noStall`: when
+    the pipeline ticks, the buffer has room for every transaction standing in a last stage), the
+    transactions leave the unit in issue order. So a younger transaction can overtake an older one only
+    in a run in which the post-pipeline buffer was full while a lane wanted to push — which needs
+    back-pressure from `ToVectorMem` (the harness checks the same on the real unit:
+    `txn:reorder-needs-full-buffer`). -/
+theorem vmem_order_preserved_unless_buffer_full (c : Cfg) (ts : List Tk) (h : noStall c (init c) ts = true) :
+    departed c ts = List.range (departed c ts).length := by
+  unfold departed
+  simpa using run_fifo_noStall c ts h
+
+/-- non-vacuity: the MI300A configuration (8 lanes, 4 stages, buffer 64), 64 stores + 64 partly coalesced loads (penalty 2), 74 have left so far, the port
+    takes everything: no push is refused; the witness run does have a refused push -/
+example : noStall (mkCfg 8 4 64) (init (mkCfg 8 4 64))
+    ([⟨64, List.replicate 64 0⟩, ⟨64, []⟩, ⟨64, List.replicate 64 2⟩] ++ List.replicate 40 ⟨64, []⟩) = true ∧
+    departed (mkCfg 8 4 64) ([⟨64, List.replicate 64 0⟩, ⟨64, []⟩, ⟨64, List.replicate 64 2⟩] ++ List.replicate 40 ⟨64, []⟩) =
+      List.range 74 := by decide +kernel
+
+example : noStall witnessCfg (init witnessCfg) witnessTicks = false := by decide +kernel
+
+/-- **counter_sound_with_fifo_path_width1.** Composition with `C02.outstanding_counter_sound`. Let the
     transaction pipeline have ONE lane, let the memory side answer in arrival order (the reorder buffer,
     property C15: the responses so far are the first `k` departures of the unit, for any run of it), and
     let no response precede the issue of its transaction. Then the in-order hypothesis of
     `outstanding_counter_sound` holds, so whenever `OutstandingVectorMemAccess` reads 0 no transaction
     of any issued instruction is in flight: `s_waitcnt vmcnt(0)` cannot release early. -/
-theorem counter_sound_with_fifo_path (c : Cfg) (hw : c.w = 1) (ts : List Tk) (ops : List COp) (k : Nat)
+theorem counter_sound_with_fifo_path_width1 (c : Cfg) (hw : c.w = 1) (ts : List Tk) (ops : List COp) (k : Nat)
     (hret : txRetIds ops = (departed c ts).take k) (hc : txCausal 0 0 ops = true) :
     (crun ops {}).counter = 0 → (crun ops {}).inflight = [] := by
   apply outstanding_counter_sound
@@ -191,7 +307,7 @@ example : ∃ (ops : List COp),
   ⟨[.issue 8, .issue 4] ++ (List.range 10).map .ret, by decide +kernel, by decide +kernel, by decide +kernel⟩
 
 /-- the same statement for every pipeline width -/
-def counter_sound_any_width : Prop :=
+def counter_sound_before_fix_full : Prop :=
   ∀ (c : Cfg) (ts : List Tk) (ops : List COp) (k : Nat),
     txRetIds ops = (departed c ts).take k → txCausal 0 0 ops = true →
     (crun ops {}).counter = 0 → (crun ops {}).inflight = []
@@ -200,12 +316,12 @@ def counter_sound_any_width : Prop :=
 def witnessOps : List COp :=
   [.issue 64, .issue 64, .issue 64] ++ ((departed witnessCfg witnessTicks).take 191).map .ret
 
-/-- **counter_sound_any_width_refuted.** Two lanes, the real witness: the answers to the last
+/-- **counter_sound_before_fix_refuted.** Two lanes, the real witness: the answers to the last
     transactions of all three instructions (63, 127, 191) have arrived, the counter reads 0, and
     transaction 73 of the second instruction has not even left the compute unit. (On the real unit:
     oracle `C02.vmem-counter-early`; with `s_waitcnt vmcnt(1)` behind store / load / store the dependent
     `v_xor` read the stale lane 9 of the load's destination.) -/
-theorem counter_sound_any_width_refuted : ¬ counter_sound_any_width := by
+theorem counter_sound_before_fix_refuted : ¬ counter_sound_before_fix_full := by
   intro h
   have h1 : txRetIds witnessOps = (departed witnessCfg witnessTicks).take 191 := by decide +kernel
   have h2 : txCausal 0 0 witnessOps = true := by decide +kernel
@@ -214,13 +330,6 @@ theorem counter_sound_any_width_refuted : ¬ counter_sound_any_width := by
   have := h witnessCfg witnessTicks witnessOps 191 h1 h2 h3
   rw [h4] at this
   cases this
-
-/-! ## stores to one address -/
-
-/-- the memory after the stores `order` (issue indices) were applied in that order; `st i` = (address,
-    value) of store `i`; `none` = never written -/
-def memOf (st : Nat → Nat × Nat) (order : List Nat) : Nat → Option Nat :=
-  order.foldl (fun m i a => if a = (st i).1 then some (st i).2 else m a) (fun _ => none)
 
 /-- **store_order_preserved_width1.** One lane: whatever the stores write and wherever, the memory
     (which applies requests in arrival order) ends up as if the departed stores had been applied in
@@ -234,15 +343,15 @@ example : memOf (fun i => (i % 4, i)) (departed (mkCfg 1 2 8) ([⟨2, List.repli
   decide +kernel
 
 /-- the same statement for every pipeline width (pointwise) -/
-def store_order_preserved_any_width : Prop :=
+def store_order_before_fix_full : Prop :=
   ∀ (c : Cfg) (ts : List Tk) (st : Nat → Nat × Nat) (a : Nat),
     memOf st (departed c ts) a = memOf st (List.range (departed c ts).length) a
 
-/-- **store_order_full_refuted.** Two lanes, the real witness with three `flat_store_dword` to the same
+/-- **store_order_before_fix_refuted.** Two lanes, the real witness with three `flat_store_dword` to the same
     64 lines (transaction `i` writes line `i % 64`; the value stands for the data register): line 9 ends
     with the data of the SECOND store (transaction 73) instead of the third (137). On the real unit:
     oracle `C02.vmem-store-order`, line 9 at 0x200240 differs from the emulator's memory. -/
-theorem store_order_full_refuted : ¬ store_order_preserved_any_width := by
+theorem store_order_before_fix_refuted : ¬ store_order_before_fix_full := by
   intro h
   have := h witnessCfg witnessTicks (fun i => (i % 64, i)) 9
   rw [witness_departure] at this
@@ -254,5 +363,7 @@ example : memOf (fun i => (i % 64, i)) (departed witnessCfg witnessTicks) 9 = so
     memOf (fun i => (i % 64, i)) (List.range 192) 9 = some 137 := by
   rw [witness_departure]
   decide +kernel
+
+end Old
 
 end C02.Txn
